@@ -909,7 +909,7 @@ func c16(c *core.Ctx) {
 		// what the nested frame gets was deducted first
 		tmp := c.FieldVar(vm+".EVM", "callGasTemp")
 		opF := func(n string) *types.Var { return c.FieldVar(vm+".operation", n) }
-		nFwd := 0
+		nFwd, nStip := 0, 0
 		for _, e := range table {
 			fns := execOf[e.Key]
 			for _, fn := range fns {
@@ -925,6 +925,26 @@ func c16(c *core.Ctx) {
 						// charged by the entry's gas function through evm.callGasTemp
 						gfs, ok := e.funcsOf(c, opF("gasCost"))
 						ok = ok && len(gfs) > 0
+						for i := range gfs {
+							gfs[i] = unwrapForwarder(gfs[i])
+						}
+						// a stipend handed to the callee on top of the forwarded gas is paid for by the value-transfer surcharge
+						if stip, _ := constInt(c.Const("chain/params.CallStipend")); core.SliceHasIntConst(sl, stip) {
+							sur, _ := constInt(c.Const("chain/params.CallValueTransferGas"))
+							paid := len(gfs) > 0 && sur >= stip
+							for _, gf := range gfs {
+								for _, r := range core.Returns(gf) {
+									if core.ClassifyReturn(r, nil, nil) == core.RetFailure {
+										continue
+									}
+									if !core.SliceHasIntConst(core.Slice(core.RetVal(r, 0)), sur) {
+										paid = false
+									}
+								}
+							}
+							c.Check("table["+e.Name+"]:stipend-paid-by-value-surcharge", "value-flow", paid, ci.Pos(), "%s adds CallStipend (%d) to the gas of the nested frame when value is sent; its gasCost function must charge CallValueTransferGas (%d ≥ stipend) on the way to every cost it returns, otherwise a call with value returns more gas than it cost", e.Name, stip, sur)
+							nStip++
+						}
 						for _, gf := range gfs {
 							if len(fieldStoresIn(gf, tmp)) == 0 {
 								ok = false
@@ -958,6 +978,7 @@ func c16(c *core.Ctx) {
 			}
 		}
 		c.Floor("gas/forwarding-opcodes", nFwd, 5)
+		c.Floor("gas/stipend-opcodes", nStip, 2)
 
 		// every call kind returns gas ∈ {its gas parameter, 0, the Gas field of the frame created with that parameter}
 		newC := c.FuncObj(vm + ".NewContract")
@@ -1586,4 +1607,42 @@ func callValueIndex(c *core.Ctx, opName string, fns []*ssa.Function, callFn *ssa
 			c.Check("table["+opName+"]:value-item-inspected", "value-flow", inspected[idx], ci.Pos(), "%s transfers the amount popped as stack item %d, enforceRestrictions must inspect stack.Back(%d)", opName, idx, idx)
 		}
 	}
+}
+
+// unwrapForwarder follows thin wrappers: a function whose only call passes its own parameters, in order, to a same-package function
+// and whose every return hands back exactly that call's results stands for the function it calls (depth-bounded).
+func unwrapForwarder(fn *ssa.Function) *ssa.Function {
+	for depth := 0; depth < 3 && fn != nil && fn.Blocks != nil; depth++ {
+		calls := core.AllCalls(fn)
+		if len(calls) != 1 {
+			return fn
+		}
+		call, ok := calls[0].(*ssa.Call)
+		if !ok {
+			return fn
+		}
+		h := core.StaticFn(call)
+		if h == nil || h.Pkg != fn.Pkg || h.Blocks == nil || len(call.Call.Args) != len(fn.Params) {
+			return fn
+		}
+		for i, a := range call.Call.Args {
+			if a != ssa.Value(fn.Params[i]) {
+				return fn
+			}
+		}
+		for _, r := range core.Returns(fn) {
+			for i := range r.Results {
+				v := core.RetVal(r, i)
+				if ex, isEx := v.(*ssa.Extract); isEx {
+					if ex.Tuple != ssa.Value(call) || ex.Index != i {
+						return fn
+					}
+				} else if v != ssa.Value(call) {
+					return fn
+				}
+			}
+		}
+		fn = h
+	}
+	return fn
 }
